@@ -46,10 +46,11 @@ def run(tier, seed):
                 inp.append({"id": f"{mode}:{i}", "srcs": [conc_member(c["s"]), conc_member(c["s2"])]})
                 if all(x["n"] in PF_NAMES and x["cp"] == "-" for x in c["s"]):
                     inp.append({"id": f"pfield:{i}", "srcs": [conc_pfield(c["s"]), conc_pfield(c["s2"])]})
-        res = core.project(core.expand(inp, "syn1"))
-        for x, rr in zip(inp, res):
-            srcs[x["id"]] = x["srcs"]
-            trace.append(rewrite.relate(x["id"], "bag", rr["runs"][0], rr["runs"][1], loose=True))
+        for lo in range(0, len(inp), 30000):                # in chunks: the thorough tier does not fit in memory otherwise
+            part = inp[lo:lo + 30000]
+            for x, rr in zip(part, core.project(core.expand(part, "syn1"))):
+                srcs[x["id"]] = x["srcs"]
+                trace.append(rewrite.relate(x["id"], "bag", rr["runs"][0], rr["runs"][1], loose=True))
     # the syn-level rewriter on existing inputs: repository + accepted arm-coverage inputs
     ex = [s for s in streams.exploration_sources(ctx, tier, seed, caps={"arms": 8000}, which=("arms", "repo"))]
     rw = core.project([{"id": i, "origin": s[0], "src": s[2]} for i, s in enumerate(ex)], mode="rewrite")
